@@ -1,6 +1,9 @@
 """Single table of claimed checks; tools/gen_manifest.py turns it into MANIFEST.json."""
 
 ENGINES = [
+    {"name": "evloop", "path": "engine/evloop.py", "serves_properties": [],
+     "kind_free_text": "controlled event loop for the real Scheduler (interposed executor + events_queue) with stateless "
+     "deviation-bounded / full-tree exploration of completion interleavings"},
     {"name": "enum", "path": "checks/ (enumeration loops in each check)", "serves_properties": [],
      "kind_free_text": "bounded-exhaustive enumeration of input shapes with all-pairs / reference-model oracles"},
 ]
@@ -22,6 +25,32 @@ CHECKS = [
         "trip must be type-exact. Exhaustive under the bound.",
         "note": "NaN excluded; strings outside the alphabet are not covered.",
     },
+]
+
+_SCHED_NOTE = ("Trusted base: the harness runs task functions itself when a job reports completion; the schedule space is the "
+               "position of each completion report in the scheduler's event sequence (scheduler state is main-thread only); "
+               "SQLite backend on /dev/shm; ids and clock are replaced by counters.")
+CHECKS += [
+    {"id": "C06", "engine": "evloop", "level": "model_checking",
+     "technique": "stateless exploration of all job-completion interleavings of the real scheduler under a controlled event loop",
+     "text": "For 18 sharp driver programs x limits configurations the complete interleaving tree of completion reports is executed on "
+     "the real Scheduler; per execution: <=1 executor submission per (eval hash, context hash) unless opted out, and the result equals the reference.",
+     "note": _SCHED_NOTE},
+    {"id": "C07", "engine": "evloop", "level": "model_checking",
+     "technique": "stateless exploration of all completion interleavings x limits configurations, cross-execution equality of result and normalized call graph",
+     "text": "Across every explored (schedule, limits configuration) pair of one program the outcome and the normalized call graph "
+     "(call nodes, edges, arguments incl. handle hashes) must be identical. Two genuine schedule dependences are listed as known findings.",
+     "note": _SCHED_NOTE},
+    {"id": "C08", "engine": "evloop", "level": "model_checking",
+     "technique": "stateless exploration of all completion interleavings with a state invariant at every choice point",
+     "text": "At every choice point of every interleaving: units held by in-flight jobs <= limit, scheduler accounting >= units held; "
+     "at the end of every run accounting equals what is still held; one release per job, none for cached/collapsed jobs.",
+     "note": _SCHED_NOTE},
+    {"id": "C09", "engine": "evloop", "level": "model_checking",
+     "technique": "stateless exploration of all completion interleavings, deadlock (quiescent-but-unfinished) detection",
+     "text": "No interleaving of the drivers under feasible limits reaches a state with no queued event, nothing in flight and a pending "
+     "workflow; returning runs leave no job pending, waiting or in flight.",
+     "note": _SCHED_NOTE},
 ]
 
 _ALL = [f"C{i:02d}" for i in range(1, 39)]
